@@ -339,7 +339,8 @@ def parseLine (mode : Bool) (p : Parsed) (line : String) : Parsed :=
     match n.toNat? with
     | some n =>
       (match rxExpires n p.lim.cost with
-       | some true => { p with out := if mode then "r err es=2" :: p.out else p.out }
+       | some true => { p with out := if mode then "r err es=2" :: p.out else p.out,
+                                 lim := { p.lim with rxMustExpire := true } }
        | some false => { p with out := if mode then "r ret 0" :: p.out else p.out }
        | none => { p with bad := line :: p.bad })
     | none => { p with bad := line :: p.bad }
